@@ -811,7 +811,7 @@ package pubsub
 //@ spec fn pruneTopic(g *pb.ControlPrune) string = ite(g == nil || g.TopicID == nil, "", deref(g.TopicID))
 //@ func (*GossipSubRouter).piggybackControl
 //@   property C07 C08
-//@   requires args: out != nil && ctl != nil
+//@   requires args: out != nil
 //@   noframe
 //@   ensures mesh-untouched: gs.mesh == old(gs.mesh) && (forall t string, q string :: has(gs.mesh, t, q) == old(has(gs.mesh, t, q)))
 //@   loop 1 invariant only-current-grafts: forall i int :: 0 <= i && i < len(tograft) ==> has(gs.mesh, graftTopic(tograft[i]), p)
@@ -926,3 +926,16 @@ package pubsub
 //@        calls((*GossipSubRouter).makePrune) - iter(calls((*GossipSubRouter).makePrune)) == ite(iter(p in toprune), len(iter(toprune[p])), 0)
 //@   loop 4 step one-rpc-per-pruned-peer: calls((*GossipSubRouter).sendRPC) == iter(calls((*GossipSubRouter).sendRPC)) + 1 &&
 //@        calls((*GossipSubRouter).makePrune) - iter(calls((*GossipSubRouter).makePrune)) == len(topics)
+
+// copyRPC: a shallow copy that owns its RPC header and its control header, so that piggybacking
+// never writes into an RPC shared with other recipients; the published messages, subscriptions
+// and every control list are the original's.
+//@ func copyRPC
+//@   property C06 C11
+//@   requires arg: rpc != nil
+//@   modifies nothing
+//@   ensures own-header: result != nil && fresh(result) && result.from == rpc.from
+//@   ensures same-payload: result.Publish == rpc.Publish && result.Subscriptions == rpc.Subscriptions && result.Partial == rpc.Partial
+//@   ensures own-control: (rpc.Control == nil ==> result.Control == nil) && (rpc.Control != nil ==> fresh(result.Control) && result.Control.Graft == rpc.Control.Graft &&
+//@        result.Control.Prune == rpc.Control.Prune && result.Control.Ihave == rpc.Control.Ihave && result.Control.Iwant == rpc.Control.Iwant &&
+//@        result.Control.Idontwant == rpc.Control.Idontwant && result.Control.Extensions == rpc.Control.Extensions)
